@@ -264,6 +264,10 @@ func (s *SQLContinuationTokenSerializer) Deserialize(continuationToken string) (
 	if err := json.Unmarshal([]byte(continuationToken), &token); err != nil {
 		return "", "", storage.ErrInvalidContinuationToken
 	}
+	if token.Ulid == "" {
+		// Serialize never issues a token without a position; one that decodes to none is malformed.
+		return "", "", storage.ErrInvalidContinuationToken
+	}
 	return token.Ulid, token.ObjectType, nil
 }
 
